@@ -2,6 +2,7 @@ import S2T.Drv.Util
 import S2T.Spec.HtmlDoc
 import S2T.Spec.HtmlBook
 import S2T.Gen.HtmlSkip
+import S2T.Model.HtmlCharset
 namespace S2T.Drv.C17
 open Lean S2T.Drv S2T.HtmlSkip
 
@@ -208,8 +209,16 @@ def bookOp (j : Json) : Except String Json := do
                        ("fresh", Json.arr fresh.toArray), ("reuse", Json.arr reuse.toArray)]
   | other => throw s!"unknown machine {other}"
 
+/-- {"t": latin-1 decoding of the file's bytes} -> {"v": sniffed charset | null} (Model/HtmlCharset.lean) -/
+def sniffOp (j : Json) : Except String Json := do
+  let t ← getStr j "t"
+  pure (Json.mkObj [("v", match S2T.HtmlCharset.sniff (chars t) with
+    | some v => jStr v
+    | none => Json.null)])
+
 def handle (op : String) (j : Json) : Option (Except String Json) :=
   match op with
+  | "c17.sniff" => some (sniffOp j)
   | "c17.run" => some (runOp j)
   | "c17.spec" => some (specOp j)
   | "c17.book" => some (bookOp j)
